@@ -29,6 +29,7 @@ Init0 ==
   [conf |-> <<>>, kinds |-> <<>>, initOk |-> TRUE,
    opened |-> {}, closed |-> {}, instPeer |-> <<>>,          \* channel instances <<ep, inst>>
    pend |-> <<>>,                                            \* [<<ep, peer>> -> queue of valid tags / -1 fault marks]
+   causes |-> <<>>,                                          \* [<<ep, peer>> -> queue of the errors injected on the read side]
    faulted |-> {}, disturbed |-> {}, wfault |-> <<>>,        \* endpoints with read faults / any disturbance / write fault seq
    closing |-> FALSE, closeRet |-> FALSE, consumerStopped |-> FALSE,
    calls |-> <<>>,                                           \* call records in invoke order
@@ -69,6 +70,7 @@ OnFeed(m, ev) ==
 
 OnReadErr(m, ev) ==
   [m EXCEPT !.pend = Put(@, PKey(ev), Append(Get(@, PKey(ev), <<>>), -1)),
+            !.causes = Put(@, PKey(ev), Append(Get(@, PKey(ev), <<>>), ev.cause)),
             !.faulted = @ \cup {ev.ep}, !.disturbed = @ \cup {ev.ep}]
 
 IsOpen(m, k) == k \in m.opened /\ k \notin m.closed
@@ -111,11 +113,14 @@ OnEvClose(m, ev) ==
       q2 == IF marks = {} THEN q ELSE SubSeq(q, Min(marks) + 1, Len(q))
       m1 == Check(m, "C10.close_exactly_once_and_last", IsOpen(m, k), ev)
       m2 == Check(m1, "C10.nothing_lost_before_close", m.closing \/ m.consumerStopped \/ ~lostBefore, ev)
+      cq == Get(m.causes, pk, <<>>)
+      \* custom transports: the very error the transport returned (the harness injects plain, deadline, EOF, closed ... errors)
       m3 == Check(m2, "C14.close_event_carries_the_cause",
                   marks = {} \/ m.closing \/
-                    (ev.cause # "nil" /\ (m.kinds[ev.ep + 1] # "custom" \/ ev.cause = "injected")), ev)
+                    (ev.cause # "nil" /\ (m.kinds[ev.ep + 1] # "custom" \/ (cq # <<>> /\ ev.cause = cq[1]))), ev)
   \* a close event that is part of Close itself does not make the endpoint's history before Close any less steady
-  IN [m3 EXCEPT !.closed = @ \cup {k}, !.pend = Put(@, pk, q2), !.disturbed = IF m.closing THEN @ ELSE @ \cup {ev.ep},
+  IN [m3 EXCEPT !.closed = @ \cup {k}, !.pend = Put(@, pk, q2),
+                !.causes = Put(@, pk, IF marks = {} \/ cq = <<>> THEN cq ELSE Tail(cq)), !.disturbed = IF m.closing THEN @ ELSE @ \cup {ev.ep},
                 !.closeTimes = Append(@, [ep |-> ev.ep, inst |-> ev.inst, t |-> ev.t, seq |-> ev.seq, cause |-> ev.cause, closing |-> m.closing])]
 
 OnEv(m, ev) ==
@@ -426,7 +431,8 @@ OnFinal(m, ev) ==
       m4 == Check(m3, "C12.event_channel_closed_after_close", initFailed \/ ev.events_closed, ev)
       m4b == Check(m4, "C12.accepted_and_dialled_connections_released",
                    ev.conns_not_released = 0 /\ ev.serial_not_closed = 0, ev)
-      m5 == Check(m4b, "C12.close_returns", initFailed \/ m.closeRet, ev)
+      m4c == Check(m4b, "C10.delivered_frames_stay_intact", ev.frames_changed_after_delivery = 0, ev)
+      m5 == Check(m4c, "C12.close_returns", initFailed \/ m.closeRet, ev)
   IN IF initFailed THEN m5
      ELSE FinalIdle(FinalReconnect(FinalBacklog(FinalWriteFault(FinalFanout(FinalAuto(m5, ev), ev), ev), ev), ev), ev)
 
